@@ -395,7 +395,7 @@ class LayoutContext:
                 footnote_area.margin_bottom)
             return overflow
         else:
-            self.current_footnote_area.height = 0
-            if not self.in_column:
-                self.page_bottom -= self.current_footnote_area.margin_height()
+            # An empty footnote area is not rendered: it takes no room and
+            # its (possibly negative) margins can't move the page bottom.
+            self.current_footnote_area.height = 'auto'
             return False
